@@ -1,7 +1,7 @@
 (* C05 - Bravyi-Kitaev family transforms are valid encodings equivalent to JW. *)
 From Coq Require Import ZArith NArith List Bool.
 From OFV Require Import Base.Cplx Base.Lin Sem.PauliSem Sem.FermiSem Model.QubitOp Model.LadderOp Model.BravyiKitaev Check.Encoding
-  Thm.C01.QubitHom Thm.C05.BKB Thm.C05.Sets Thm.C05.BKLinear.
+  Thm.C01.QubitHom Thm.C05.BKB Thm.C05.Sets Thm.C05.BKLinear Thm.C05.BKTreeLinear.
 Import ListNotations.
 
 (* [B] every n_qubits <= 7: the modelled ladder images are the Fock ladder operators transported by a
@@ -36,3 +36,14 @@ Theorem C05_bk_encoding_injective_upto_128 : forall n v v', (1 <= n <= 128)%nat 
   (v < 2 ^ N.of_nat n)%N -> (v' < 2 ^ N.of_nat n)%N -> enc n v = enc n v' -> v = v'.
 Proof. exact bk_encoding_injective_upto_128. Qed.
 Print Assumptions C05_bk_encoding_injective_upto_128.
+
+(* bravyi_kitaev_tree by the same argument (storage scheme: qubit j stores the parity of the modes whose
+   Fenwick-tree update path contains j): for every n_qubits <= 40, EVERY operator on modes < n, EVERY state *)
+Theorem C05_bkt_ladder_linear : forall n i act v, tree_ok n i = true ->
+  leq N.eqb (qden (bkt_ladder (N.of_nat i, act) (Z.of_nat n)) (encF (Ft n) n v)) (emapF (Ft n) n (fapply1 (N.of_nat i, act) v)).
+Proof. exact bkt_ladder_den. Qed.
+Print Assumptions C05_bkt_ladder_linear.
+Theorem C05_bkt_sound_upto_40 : forall n op v, (1 <= n <= 40)%nat -> modes_lt n op = true ->
+  leq N.eqb (qden (bkt0 op (Z.of_nat n)) (encF (Ft n) n v)) (emapF (Ft n) n (fden op v)).
+Proof. exact bkt_sound_upto_40. Qed.
+Print Assumptions C05_bkt_sound_upto_40.
